@@ -101,6 +101,21 @@ def check_C05(tier: str, v: Verdict):
             a, b = (small, big) if rng.random() < 0.7 else (big, small)
             g = "mixed-magnitude"
         recs.append(rec_approx(a, b, rng.choice(backends), dtype=dt, meta={"gen": g}))
+    # instance counts at the dtype boundaries of the instance maps: 255 / 256 / 257 isolated components
+    for k in (255, 256, 257):
+        for shape in ((2 * k + 1,), (32, 34)):
+            a = np.zeros(shape, dtype=np.int64)
+            if len(shape) == 1:
+                a[1:2 * k:2] = 1
+            else:
+                pos = [(i, j) for i in range(0, 32, 2) for j in range(0, 34, 2)][:k]
+                for p_ in pos:
+                    a[p_] = rng.choice([1, 2])
+            b = np.zeros(shape, dtype=np.int64)
+            b[tuple(0 for _ in shape)] = 1
+            for be in (backends if tier == "thorough" else [rng.choice(backends)]):
+                recs.append(rec_approx(a, b, be, dtype=np.uint16, meta={"gen": f"components-{k}"}))
+                recs.append(rec_approx(b, a, be, dtype=np.uint16, meta={"gen": f"components-{k}"}))
     common_cov(v, recs, lambda r: (tuple(r["shape"]), tuple(r["spred"]), tuple(r["sref"]), r["backend"], r["meta"]["dtype"]),
                lambda r: any(r["spred"]) or any(r["sref"]))
     v.cov["rule"] = ("semantic maps: exhaustive tiny 1-D/2-D/3-D grids (each through default/cc3d/scipy) + seeded random maps with 1-3 "
